@@ -2,7 +2,10 @@
 """Regenerates MANIFEST.json from checks.json (+ properties.jsonl for the not_applicable list)."""
 import json, os, subprocess
 R = os.path.dirname(os.path.abspath(__file__))
-cfg = json.load(open(os.path.join(R, "checks.json")))
+import glob
+cfg = {}
+for f in sorted(glob.glob(os.path.join(R, "checks.d", "*.json"))):
+    cfg.update(json.load(open(f)))
 props = [json.loads(l) for l in open(os.path.join(R, "properties.jsonl")) if l.strip()]
 na_reasons = {}
 try:
